@@ -17,6 +17,7 @@ SUBS = [
     dict(name="timerqueue", quick=dict(cases=60, shards=1), thorough=dict(cases=1500, shards=1)),
     dict(name="events", quick=dict(cases=30, shards=3), thorough=dict(cases=1200, shards=3)),
     dict(name="io", quick=dict(cases=30, shards=3), thorough=dict(cases=1200, shards=3)),
+    dict(name="pool", quick=dict(cases=6, shards=3), thorough=dict(cases=200, shards=4)),
     dict(name="netbuf", quick=dict(cases=30, shards=2), thorough=dict(cases=1200, shards=2)),
     dict(name="addr", quick=dict(cases=40, shards=1), thorough=dict(cases=1200, shards=1)),
     dict(name="http", quick=dict(cases=12, shards=2), thorough=dict(cases=24, shards=2)),
@@ -47,5 +48,5 @@ MANIFEST = dict(
          "cancel/delete/free paths must work under persistent failure, and after releasing everything no library allocation may remain at exit. "
          "This is fault enumeration, not sampling: within each base case every allocation site reached is failed.",
     note="Trusted: the tracking allocator, the kernel model, clang 14 sanitizers, rapidcheck. Base cases are sampled; the enumeration inside each base case is "
-         "complete up to 150 allocation calls (subsampled above, recorded as class k-subsampled).",
+         "complete up to 400 allocation calls (subsampled above, recorded as class k-subsampled).",
 )
